@@ -51,6 +51,16 @@ PROPS = {
                 quick=['std-lax', 'std-strict'], thorough=list(CONFIGS)),
     'C05': dict(workload='C05', oracle=['C05'], project=proj_identity,
                 quick=['std-lax', 'std-strict'], thorough=list(CONFIGS)),
+    'C08': dict(workload='C08', oracle=['C08'], project=proj_identity,
+                quick=['std-lax'], thorough=['std-lax', 'nostd-lax']),
+    'C09': dict(workload='C09', oracle=['C09'], project=proj_identity, spec_ops=('contchk',),
+                quick=['std-lax'], thorough=['std-lax', 'std-strict', 'nostd-lax']),
+    'C10': dict(workload='C10', oracle=['C10'], project=proj_identity,
+                quick=['std-lax'], thorough=['std-lax', 'std-strict', 'nostd-lax']),
+    'C14': dict(workload='C14', oracle=['C14'], project=proj_identity,
+                quick=['std-lax', 'std-strict'], thorough=list(CONFIGS)),
+    'C17': dict(workload='C17', oracle=['C17'], project=proj_identity,
+                quick=['std-lax', 'std-strict'], thorough=list(CONFIGS)),
     'C16': dict(workload='C16', oracle=['C16'], project=proj_kind_msg,
                 quick=['std-lax', 'std-strict'], thorough=list(CONFIGS)),
 }
@@ -337,6 +347,9 @@ def run_check(pid, tier, only_cfgs=None, quiet=False):
                 k = known_match(known, pid, cfg, c, 'disagree ' + detail)
                 if k:
                     knowns.setdefault(k['id'], [k, 0])[1] += 1
+                elif c.split(' ', 1)[0] in spec.get('spec_ops', ('spec',)) or c.startswith('spec '):
+                    # the model side of this line is the specification itself
+                    violations.append((cfg, c, detail, 'impl-violates-property'))
                 else:
                     violations.append((cfg, c, detail, 'correspondence-broken'))
         stats['disagreements'] += ndis
